@@ -88,3 +88,26 @@ def run_c14(tier):
                     'bounds': {'configurations': per}, 'samples': samples or ['(none)']}
     rep.assumptions = ['the interposed pwrite/open/close model the kernel: a short write returns fewer bytes than asked and writes exactly those', 'different paths per cycle (the property speaks of earlier acquisitions to other paths)']
     rep.finish()
+
+
+def run_c15(tier):
+    args = [['--cycles', '1'], ['--cycles', '2']]
+    rep, tot, samples, per, ex = _simple('C15', tier, 'c15_tiff', args, '', [])
+    rep.coverage = {'states': tot.get('runs', 0) or 1, 'transitions': tot.get('files_parsed', 0) or 1, 'traces_validated_against_impl': tot.get('files_parsed', 0), 'exhaustive': ex,
+                    'rule': 'full product kind{tiff,tiff-json} x shape{1x1,3x2,5x1,33x3} x 8 sample types x N{1,2,3} x every grouping into packets x metadata{none,{},nested} x pixel scale{(1,1),(0.5,2),(0,0)} x URI{plain,file://} for one cycle, and a second start/stop cycle (other N / metadata) on a sub-product; every file is written by the real tiff.cpp / side-by-side-tiff.cpp through the HAL and parsed by an independent BigTIFF reader + JSON parser; states = device histories, transitions = files parsed',
+                    'events': {k: tot.get(k, 0) for k in ('runs', 'files_parsed', 'configurations_refused_by_the_device')},
+                    'bounds': {'configurations': per}, 'samples': samples or ['(none)']}
+    rep.assumptions = ['the independent reader and JSON parser in c15_tiff.cpp are the trusted base', 'strip tails beyond the image bytes (8-byte padding) are tolerated: the property asks for the pixel bytes unchanged', 'tag order / resolution tags are not judged (not part of the property)']
+    rep.finish()
+
+
+def run_c16(tier):
+    depth = '5' if tier == 'thorough' else '4'
+    args = [['--kind', k, '--depth', depth] for k in ('3', '4', '5', '6')]
+    rep, tot, samples, per, ex = _simple('C16', tier, 'c16_faults', args, '', [])
+    rep.coverage = {'states': tot.get('histories', 0) or 1, 'transitions': tot.get('runs', 0) or 1, 'traces_validated_against_impl': tot.get('runs', 0), 'exhaustive': ex,
+                    'rule': 'for raw, tiff, trash and tiff-json: every history open;{set,start,append,stop}^<=depth;close x {no fault, the j-th create fails, every create fails, the k-th write fails once, every write from the k-th on fails, two writes fail}; each run in a forked child with a 4 MiB stack and a 10 s alarm (crash / unbounded recursion / hang are verdicts); descriptor ledger in the interposed open/close/pwrite with foreign descriptors opened and closed between calls',
+                    'events': {k: tot.get(k, 0) for k in ('histories', 'runs', 'runs_with_faults')},
+                    'bounds': {'configurations': per}, 'samples': samples or ['(none)']}
+    rep.assumptions = ['write failures inside start() (tiff header, metadata.json) are only judged for crashes and descriptor discipline: the property asks for the report by the end of a failing append', 'EIO / EACCES stand for every errno']
+    rep.finish()
